@@ -31,7 +31,7 @@ M = [
  ("C13_suffix_context", "C13", "internal/pkg/input/validators_services.go", 'strings.HasSuffix(*s.Getter, "InContext")', 'strings.HasSuffix(*s.Getter, "InContex")', "ValidateServiceGetter"),
  ("C14_alias_counter_not_incremented", "C14", "internal/pkg/imports/imports.go", "\ti.counter++\n", "", "Alias"),
  ("C14_register_overwrites", "C14", "internal/pkg/imports/imports.go", "\tif _, ok := i.prefixes[alias]; ok {\n\t\treturn fmt.Errorf(\"prefix is already registered: %+q\", alias)\n\t}\n", "", "RegisterPrefixAlias"),
- ("C15_todo_services_fully_validated", "C15", "internal/pkg/input/validators_services.go", "if !ptr.Dereference(s.Todo, DefaultServiceTodo) {", "if true {", "ValidateServices"),
+ ("C15_todo_services_fully_validated", "C15", "internal/pkg/input/validators_services.go", "if !ptr.Dereference(s.Todo, DefaultServiceTodo) {", "if !ptr.Dereference(s.Todo, DefaultServiceTodo) || true {", "ValidateServices"),
  ("C15_todo_bound_to_getenv", "C15", "internal/cmd/runner/step_default_input.go", "consts.FuncTodo:   consts.BuiltInParamTodo,", "consts.FuncTodo:   consts.BuiltInGetEnv,", "StepDefaultInput"),
  ("C16_active_flags_swapped", "C16", "internal/cmd/runner_builder.go", "c.MustGetStepValidateParamsExist().Active(p.paramsExistActive)\n\tc.MustGetStepValidateServicesExist().Active(p.servicesExistActive)", "c.MustGetStepValidateParamsExist().Active(p.servicesExistActive)\n\tc.MustGetStepValidateServicesExist().Active(p.paramsExistActive)", ""),
  ("C16_inactive_runs_parent", "C16", "internal/cmd/runner/step_verbose_switchable.go", "\t\ts.printer.PrintAlignedLn(n+\" END\", \"ignored\")\n\t\treturn nil", "\t\ts.printer.PrintAlignedLn(n+\" END\", \"ignored\")\n\t\t_ = s.parent.Run(i, o)\n\t\treturn nil", "StepVerboseSwitchable"),
